@@ -44,6 +44,15 @@ def build_lib(variant, quiet=True):
     d = os.path.join(BUILD, variant, "lib")
     os.makedirs(d, exist_ok=True)
     libflags = libflags + " -Dmalloc=gmsim_lib_malloc"      # allocator seam: the library's own malloc calls (wraps.c)
+    ccpath = cc
+    if variant == "msan":
+        # the project's CMakeLists appends -O3, and optimised code lets MSan reason poisoned bits away (a switch on a
+        # poisoned byte became a range check it could "prove" either way): a wrapper appends -O0 after everything else
+        ccpath = os.path.join(BUILD, variant, "cc-O0")
+        with open(ccpath, "w") as f:
+            f.write('#!/bin/sh\nexec %s "$@" -O1 -fno-jump-tables -mllvm -msan-handle-icmp=0\n' % cc)
+        os.chmod(ccpath, 0o755)
+        libflags = libflags + " -DGMSIM_LIB_O1_STRICT_ICMP"
     stamp = os.path.join(d, "flags.stamp")
     if os.path.exists(os.path.join(d, "build.ninja")) and (not os.path.exists(stamp) or open(stamp).read() != libflags):
         os.remove(os.path.join(d, "build.ninja"))
@@ -51,7 +60,7 @@ def build_lib(variant, quiet=True):
             os.remove(os.path.join(d, "CMakeCache.txt"))
     if not os.path.exists(os.path.join(d, "build.ninja")):
         cmd = ["cmake", "-G", "Ninja", "-S", REPO, "-B", d, "-DBUILD_SHARED_LIBS=OFF",
-               "-DCMAKE_BUILD_TYPE=", "-DCMAKE_C_COMPILER=" + cc, "-DCMAKE_C_FLAGS=" + libflags + " -Wno-error -w"]
+               "-DCMAKE_BUILD_TYPE=", "-DCMAKE_C_COMPILER=" + ccpath, "-DCMAKE_C_FLAGS=" + libflags + " -Wno-error -w"]
         rc, out = run(cmd)
         if rc != 0:
             sys.stderr.write(out)
@@ -91,7 +100,8 @@ def build_harness(variant, lib):
         if os.path.exists(os.path.join(SIM, f)):
             srcs.append(f)
             defs += " " + define
-    hdrs = glob.glob(os.path.join(SIM, "*.h")) + glob.glob(os.path.join(SIM, "*.inc"))
+    # the harness sees the library's structs (TLS_CONNECT, TLS_CTX, SM2_SIGN_CTX ...) through its public headers
+    hdrs = glob.glob(os.path.join(SIM, "*.h")) + glob.glob(os.path.join(SIM, "*.inc")) + glob.glob(os.path.join(REPO, "include", "gmssl", "*.h"))
     hstamp = max(os.path.getmtime(h) for h in hdrs)
     objs = []
     procs = []
